@@ -68,6 +68,12 @@ SYSTEMS = {
                     reorder=['AL', 'SI', 'MG']),
     'cuti':    dict(src=('file', 'CuTi.tdb'), elements=['CU', 'TI'], phases=['FCC_A1'], phase='FCC_A1',
                     axes=[('TI', 0.002, 0.04)], T=[573.15, 623.15, 673.15, 773.15]),
+    # the public mobility-correction factors (setMobilityCorrection) scale the mobility of an element everywhere it enters:
+    # tracer diffusivity, mobility matrix and interdiffusivity must all carry the same factor
+    'cuti-corr': dict(src=('file', 'CuTi.tdb'), elements=['CU', 'TI'], phases=['FCC_A1'], phase='FCC_A1',
+                      axes=[('TI', 0.002, 0.04)], T=[623.15, 773.15], correction={'TI': 40.0}),
+    'fecrni-fcc-corr': dict(src=('datasets', 'FECRNI_DB'), elements=['FE', 'CR', 'NI'], phases=['FCC_A1', 'BCC_A2'], phase='FCC_A1',
+                            axes=[('CR', 0.05, 0.25), ('NI', 0.08, 0.40)], T=[1273.15, 1473.15], correction={'CR': 25.0, 'FE': 0.2}),
 }
 
 # tolerances (relative to the max-norm of the reference matrix / vector)
@@ -90,6 +96,8 @@ def system(s, order=None):
     if key not in _SYS:
         d = SYSTEMS[s]
         _SYS[key] = GeneralThermodynamics(_db_arg(s), list(order or d['elements']), list(d['phases']))
+        for el, fac in d.get('correction', {}).items():
+            _SYS[key].setMobilityCorrection(el, fac)
     return _SYS[key]
 
 
@@ -174,7 +182,8 @@ def check_point(s, x, T, order=None):
     difc = th.diffCallables.get(phase)
     dof = np.array(cs.dof, dtype=float)
     if mobc is not None:
-        M = np.array([float(mobc[e](dof)) for e in alpha])          # alphabetical
+        corr = SYSTEMS[s].get('correction', {})
+        M = np.array([float(mobc[e](dof)) * corr.get(e, 1.0) for e in alpha])          # alphabetical
         tracer_ref = R_GAS * T * M
     else:
         M = None
@@ -296,7 +305,7 @@ def run(ctx):
     for s, d in SYSTEMS.items():
         n = n1 if len(d['axes']) == 1 else n2
         pts = lattice(s, n)
-        Ts = d['T'] if not quick else [d['T'][0], d['T'][2]]        # quick: 2 of the 4 temperatures
+        Ts = d['T'] if (not quick or len(d['T']) < 3) else [d['T'][0], d['T'][2]]        # quick: 2 of the 4 temperatures
         for T in Ts:
             g = 8 if len(d['axes']) == 1 else 6
             for i in range(0, len(pts), g):
